@@ -897,6 +897,47 @@ fn witness_max_frame(rng: &mut Rng) -> Vec<Seg> {
     v
 }
 
+/// a maximum-size frame that embeds a frame ending exactly where the outer one ends, then garbage and a
+/// small frame; read schedules that stop j bytes behind the outer frame's end (the next-marker test sees
+/// 0..7 bytes of what follows)
+fn gen_max_frame(rng: &mut Rng, sites: &[(String, u64, u64)]) -> CaseIn {
+    let at = rng.range(0, 150); // payload offset of the embedded frame
+    let inner_total = 65551 - 20 - at; // 16 + len
+    let inner_len = (inner_total - 16) as u16;
+    let mut inner = b"DLT\x01".to_vec();
+    inner.extend_from_slice(&[1, 0, 0, 0, 2, 0, 0, 0, b'E', b'C', b'U', b'9', 0x20, rng.below(256) as u8]);
+    inner.extend_from_slice(&inner_len.to_be_bytes());
+    let mut payload = vec![];
+    if at > 0 {
+        payload.push(Seg::Rep(0x41, at));
+    }
+    payload.push(Seg::Lit(inner));
+    payload.push(Seg::Rep(rng.below(256) as u8, inner_len as u64 - 4));
+    let mut v = vec![];
+    let mut front = 0;
+    if rng.chance(1, 2) {
+        let psz = rng.size(30);
+        v.extend(good_frame(rng, psz));
+        front = segs_len(&v);
+    }
+    v.extend(frame(rng, true, 0x20, payload, None));
+    let outer_end = segs_len(&v);
+    let g: Vec<u8> = (0..rng.range(1, 12)).map(|_| rng.below(256) as u8).collect();
+    v.push(Seg::Lit(g));
+    let psz = rng.size(20);
+    v.extend(good_frame(rng, psz));
+    let j = rng.below(8);
+    let sched = if front > 0 && rng.chance(1, 2) { vec![front, outer_end - front + j] } else { vec![outer_end + j] };
+    let use_site = !sites.is_empty() && rng.chance(1, 2);
+    let (capacity, low) = if use_site {
+        let s = rng.pick(sites);
+        (s.1, s.2)
+    } else {
+        (LOOKAHEAD + CL + rng.below(3) * CL, LOOKAHEAD)
+    };
+    CaseIn::Iter { capacity, low, data: v, sched, start: rng.below(1000) as u32, coq_rd: false, sched_kind: "max_frame_then_rest".into(), call_site: use_site }
+}
+
 fn main() {
     let a = parse_args();
     let mut sink = Sink::new("C04", &a.out);
@@ -960,7 +1001,7 @@ fn main() {
     let (nt, ni, np) = match a.tier.as_str() {
         "quick" => (300, 260, 60),
         "search" => (600, 500, 100),
-        _ => (6000, 5000, 1000),
+        _ => (10000, 8000, 1600),
     };
     let scale = |n: u64| a.count.map(|c| (n * c / 620).max(1)).unwrap_or(n);
     let big = a.tier != "quick";
@@ -975,6 +1016,10 @@ fn main() {
     for _ in 0..scale(np) {
         let c = gen_pos(&mut rng);
         record(&mut sink, c, &[]);
+    }
+    for _ in 0..scale(np / 4) {
+        let c = gen_max_frame(&mut rng, &sites);
+        record(&mut sink, c, &["max_frame_embedded"]);
     }
     sink.finish();
 }
